@@ -952,8 +952,8 @@ func c02OwnBuf(rc *RuleCtx) {
 }
 
 func init() {
-	register(&Rule{ID: "C14.batchcap", Floor: 4, Also: []string{"C02"},
-		Text: "a batch of a directory listing that an open handle hands out from the listing it keeps between calls (ReadDir(n), Readdirnames(n) with n > 0) cannot be grown into the rest of that listing: every slice of a field of the handle that such a method returns is a three-index slice whose capacity is its length (or a copy) - with spare capacity behind it, a caller that appends to a batch overwrites the entries the next call returns, where os.File returns a slice of its own each time",
+	register(&Rule{ID: "C14.batchcap", Floor: 4, Also: []string{"C02", "C07"},
+		Text: "a batch of a directory listing that an open handle hands out from the listing it keeps between calls (ReadDir(n), Readdirnames(n) with n > 0) cannot be grown into the rest of that listing: every slice of a field of the handle that such a method returns is a three-index slice whose capacity is its length (or a copy) - with spare capacity behind it, a caller that appends to a batch overwrites the entries the next call returns, where os.File returns a slice of its own each time; and the cursor a batch starts at is kept below the length of that listing by a `cursor >= len(listing)` test that ends the enumeration (ReadDir and Readdirnames share the cursor but not the listing: after one of them ran ahead, the other must answer io.EOF, not slice beyond its own listing)",
 		Run:  c14BatchCap})
 }
 
@@ -968,7 +968,7 @@ func c14BatchCap(rc *RuleCtx) {
 				continue
 			}
 			n := 0
-			var badAt token.Pos
+			var badAt, curAt token.Pos
 			for _, r := range returnsOf(f) {
 				if len(r.Results) == 0 {
 					continue
@@ -992,9 +992,19 @@ func c14BatchCap(rc *RuleCtx) {
 							badAt = r.Pos()
 						}
 					}
+					// the cursor the batch starts at is below the length of the listing it is taken from (the two
+					// listings of a handle share one cursor: it can be beyond the shorter one)
+					if sl.Low != nil && !cursorBelowLen(sl.Block(), sl.Low, ld) && curAt == token.NoPos {
+						curAt = sl.Pos()
+						if curAt == token.NoPos {
+							curAt = r.Pos()
+						}
+					}
 				}
 			}
 			switch {
+			case curAt != token.NoPos:
+				rc.bad(cons, curAt, "the batch is sliced from the listing at a cursor that no test on the path keeps below the listing's length (`cursor >= len(listing)` must end the enumeration): the cursor is shared with the handle's other listing and can lie beyond this one, where the slice expression panics")
 			case badAt != token.NoPos:
 				rc.bad(cons, badAt, "a part of the listing kept in the handle is returned with spare capacity behind it: append on the returned batch writes into the entries of the next batch")
 			case n == 0:
@@ -1006,6 +1016,45 @@ func c14BatchCap(rc *RuleCtx) {
 	}
 }
 
+// sameFieldLoad: both values are loads of the same field of the same object.
+func sameFieldLoad(a, b ssa.Value) bool {
+	la, ok1 := a.(*ssa.UnOp)
+	lb, ok2 := b.(*ssa.UnOp)
+	if !ok1 || !ok2 || la.Op != token.MUL || lb.Op != token.MUL {
+		return false
+	}
+	fa, ok1 := la.X.(*ssa.FieldAddr)
+	fb, ok2 := lb.X.(*ssa.FieldAddr)
+	return ok1 && ok2 && fa.Field == fb.Field && strip(fa.X) == strip(fb.X)
+}
+
+// cursorBelowLen: a fact at the block says low < len(listing) (listing: a load of the same field as ld).
+func cursorBelowLen(b *ssa.BasicBlock, low ssa.Value, ld *ssa.UnOp) bool {
+	isLen := func(v ssa.Value) bool {
+		c, ok := v.(*ssa.Call)
+		if !ok {
+			return false
+		}
+		bi, ok := c.Call.Value.(*ssa.Builtin)
+		return ok && bi.Name() == "len" && len(c.Call.Args) == 1 && sameFieldLoad(c.Call.Args[0], ld)
+	}
+	for _, fa := range factsAt(b) {
+		v, truth := normCond(fa.Cond, fa.Truth)
+		bo, ok := v.(*ssa.BinOp)
+		if !ok {
+			continue
+		}
+		switch {
+		case bo.Op == token.LSS && truth && bo.X == low && isLen(bo.Y),
+			bo.Op == token.GEQ && !truth && bo.X == low && isLen(bo.Y),
+			bo.Op == token.GTR && truth && bo.Y == low && isLen(bo.X),
+			bo.Op == token.LEQ && !truth && bo.Y == low && isLen(bo.X):
+			return true
+		}
+	}
+	return false
+}
+
 func returnOperandOr(r *ssa.Return, i int) ssa.Value {
 	if v := returnOperand(r, i); v != nil {
 		return v
@@ -1014,7 +1063,7 @@ func returnOperandOr(r *ssa.Return, i int) ssa.Value {
 }
 
 func init() {
-	register(&Rule{ID: "C08.lockless", Floor: 1,
+	register(&Rule{ID: "C08.lockless", Floor: 1, Also: []string{"C11"}, AlsoOnly: map[string][]string{"C11": {" replaces "}}, AlsoFloor: map[string]int{"C11": 0},
 		Text: "a map held in a struct of memfs / orefafs / memidm that carries no mutex of its own (MemFS: every view made by Sub shares the maps of the struct it was copied from) is filled while the object is built and never written afterwards: a later insertion or deletion has no lock it could share with the readers of the map (the path walk reads the volume table on every call), which the runtime answers with a data race or 'concurrent map read and map write'",
 		Run:  c08Lockless})
 }
@@ -1095,6 +1144,25 @@ func c08Lockless(rc *RuleCtx) {
 			eachInstr(f, func(in ssa.Instruction) {
 				var m ssa.Value
 				switch x := in.(type) {
+				case *ssa.Store:
+					// the map itself replaced: the copies of the struct (views) keep the old one
+					fa, ok := x.Addr.(*ssa.FieldAddr)
+					if !ok || f.Signature.Recv() == nil {
+						return
+					}
+					if _, isMap := x.Val.Type().Underlying().(*types.Map); !isMap {
+						return
+					}
+					n := namedOf(derefType(fa.X.Type()))
+					if n == nil || !lockless[n] || objKeyOf(fa).fresh {
+						return
+					}
+					cons := funcName(f) + " replaces " + n.Obj().Name() + "." + fieldName(fa.X.Type(), fa.Field)
+					if !seen[cons] {
+						seen[cons] = true
+						rc.bad(cons, in.Pos(), "the map held in the struct is replaced by another one after construction: every copy of the struct made before (the views made by Sub) keeps the old map, so the volume table is no longer shared - and the store races with the readers as a write into the map does")
+					}
+					return
 				case *ssa.MapUpdate:
 					m = x.Map
 				case *ssa.Call:
@@ -1120,6 +1188,279 @@ func c08Lockless(rc *RuleCtx) {
 					rc.bad(cons, in.Pos(), "the map is written after construction and the struct has no lock: a call that reads it in another goroutine (every path walk, for the volume table) races with this write")
 				}
 			})
+		}
+	}
+}
+
+func init() {
+	register(&Rule{ID: "C15.kind", Floor: 6,
+		Text: "the identity manager hands out groups as groups and users as users: every non-nil value a function of memidm returns as avfs.GroupReader is a *MemGroup and every one it returns as avfs.UserReader a *MemUser (a *MemUser also has Gid() and Name(), so it compiles as a group: AdminGroup() answering the administrator *user* names a group that was never registered as soon as the two names differ, as they do on a Windows-typed manager)",
+		Run:  c15Kind})
+}
+
+func c15Kind(rc *RuleCtx) {
+	want := map[string]string{"GroupReader": "MemGroup", "UserReader": "MemUser"}
+	for _, f := range rc.C.srcFuncs("memidm") {
+		if rc.C.inlinedAway(f) || f.Synthetic != "" {
+			continue
+		}
+		res := f.Signature.Results()
+		for i := 0; i < res.Len(); i++ {
+			n := namedOf(res.At(i).Type())
+			if n == nil || want[n.Obj().Name()] == "" {
+				continue
+			}
+			cons := fmt.Sprintf("%s result#%d is a %s", funcName(f), i, want[n.Obj().Name()])
+			cnt := 0
+			var badAt token.Pos
+			got := ""
+			for _, r := range returnsOf(f) {
+				if i >= len(r.Results) {
+					continue
+				}
+				v := returnOperandOr(r, i)
+				for _, o := range resolveRaw(v) {
+					for _, leaf := range phiLeaves(o, 0) {
+						mi, ok := leaf.(*ssa.MakeInterface)
+						if !ok {
+							continue
+						}
+						cnt++
+						tn := namedOf(derefType(mi.X.Type()))
+						if (tn == nil || tn.Obj().Name() != want[n.Obj().Name()]) && badAt == token.NoPos {
+							badAt = r.Pos()
+							got = typeStr(mi.X.Type())
+						}
+					}
+				}
+			}
+			switch {
+			case badAt != token.NoPos:
+				rc.bad(cons, badAt, "hands out a "+got+" as "+n.Obj().Name()+": the object is not the one registered under that id and name, so a lookup by its name or id disagrees with it")
+			case cnt > 0:
+				rc.good(cons, f.Pos(), fmt.Sprintf("%d returned values of the right kind", cnt))
+			}
+		}
+	}
+}
+
+// phiLeaves: the values a (possibly merged) value can be.
+func phiLeaves(v ssa.Value, depth int) []ssa.Value {
+	if ph, ok := v.(*ssa.Phi); ok && depth < 6 {
+		var out []ssa.Value
+		for _, e := range ph.Edges {
+			if e != ssa.Value(ph) {
+				out = append(out, phiLeaves(e, depth+1)...)
+			}
+		}
+		return out
+	}
+	return []ssa.Value{v}
+}
+
+func init() {
+	register(&Rule{ID: "C10.positional", Floor: 40, Also: []string{"C09"},
+		AlsoOnly: map[string][]string{"C09": {"rofs."}}, AlsoFloor: map[string]int{"C09": 15},
+		Text: "a method of BasePathFS / BasePathFile / RoFS / RoFile that forwards to the same-named method of the base hands its own parameters over in their own positions: a parameter passed on unchanged sits at the index it has in the method's signature (two parameters of one type - atime and mtime, uid and gid, offset and whence - cannot be swapped without the compiler noticing)",
+		Run:  c10Positional})
+}
+
+func c10Positional(rc *RuleCtx) {
+	for _, pk := range []string{"basepathfs", "rofs"} {
+		for _, f := range rc.C.srcFuncs(pk) {
+			if rc.C.inlinedAway(f) || f.Synthetic != "" || f.Signature.Recv() == nil || !isEntryPoint(f) {
+				continue
+			}
+			n := 0
+			var badAt token.Pos
+			what := ""
+			eachCall(f, func(ci ssa.CallInstruction) {
+				cc := ci.Common()
+				if !cc.IsInvoke() || cc.Method.Name() != f.Name() {
+					return
+				}
+				for i, a := range cc.Args {
+					p, ok := strip(a).(*ssa.Parameter)
+					if !ok {
+						continue
+					}
+					for j, fp := range f.Params {
+						if fp == p && j >= 1 {
+							n++
+							if j-1 != i && badAt == token.NoPos {
+								badAt = ci.Pos()
+								what = fmt.Sprintf("parameter %s (position %d) is passed at position %d", p.Name(), j, i+1)
+							}
+						}
+					}
+				}
+			})
+			if n == 0 {
+				continue
+			}
+			cons := funcName(f) + " positional forward"
+			if badAt != token.NoPos {
+				rc.bad(cons, badAt, what+" of the base's "+f.Name()+": the base receives the arguments in another order than the caller gave them")
+			} else {
+				rc.good(cons, f.Pos(), fmt.Sprintf("%d parameters forwarded at their own positions", n))
+			}
+		}
+	}
+}
+
+func init() {
+	register(&Rule{ID: "C11.subpure", Floor: 3, Also: []string{"C12"},
+		AlsoOnly: map[string][]string{"C12": {"failfs."}}, AlsoFloor: map[string]int{"C12": 1},
+		Text: "making a view changes nothing in the file system it is made from: no Sub method of the library (MemFS, MemIOFS and the wrappers that forward Sub) stores through its receiver - a wrapper that plugs the base's view into itself instead of into the copy it returns re-roots the parent at the sub-directory and hands out a 'view' of the whole tree",
+		Run:  c11SubPure})
+}
+
+func c11SubPure(rc *RuleCtx) {
+	for _, pk := range []string{"memfs", "orefafs", "rofs", "basepathfs", "failfs"} {
+		for _, f := range rc.C.srcFuncs(pk) {
+			if f.Name() != "Sub" || f.Signature.Recv() == nil || len(f.Params) == 0 || len(f.Blocks) == 0 {
+				continue
+			}
+			recv := ssa.Value(f.Params[0])
+			cons := funcName(f) + " leaves its receiver alone"
+			var badAt token.Pos
+			eachInstr(f, func(in ssa.Instruction) {
+				st, ok := in.(*ssa.Store)
+				if !ok || badAt != token.NoPos {
+					return
+				}
+				if _, isField := st.Addr.(*ssa.FieldAddr); !isField {
+					return
+				}
+				if rootAlloc(st.Addr) == recv {
+					badAt = st.Pos()
+				}
+			})
+			if badAt != token.NoPos {
+				rc.bad(cons, badAt, "Sub stores into a field of the file system it was called on: the parent is changed by making a view (re-rooted, or given the view's state), and what Sub returns still refers to the unchanged copy")
+			} else {
+				rc.good(cons, f.Pos(), "no store through the receiver")
+			}
+		}
+	}
+}
+
+func init() {
+	register(&Rule{ID: "C05.volume", Floor: 1, Also: []string{"C17"},
+		Text: "MemFS forgets a volume (an entry of the volume table is deleted) only after the recursive remover has released everything below its root on that path: a volume dropped with its content intact leaves every file that has another hard link on a surviving volume with the links of the names that vanished",
+		Run:  c05Volume})
+}
+
+func c05Volume(rc *RuleCtx) {
+	n := 0
+	for _, f := range rc.C.srcFuncs("memfs") {
+		if rc.C.inlinedAway(f) || f.Synthetic != "" {
+			continue
+		}
+		eachInstr(f, func(in ssa.Instruction) {
+			c, ok := in.(*ssa.Call)
+			if !ok {
+				return
+			}
+			b, ok := c.Call.Value.(*ssa.Builtin)
+			if !ok || b.Name() != "delete" || len(c.Call.Args) == 0 {
+				return
+			}
+			ld, ok := c.Call.Args[0].(*ssa.UnOp)
+			if !ok {
+				return
+			}
+			fa, ok := ld.X.(*ssa.FieldAddr)
+			if !ok || fieldName(fa.X.Type(), fa.Field) != "volumes" {
+				return
+			}
+			n++
+			cons := funcName(f) + " releases the volume's content"
+			released := false
+			eachCall(f, func(ci ssa.CallInstruction) {
+				if fn := calleeFunc(ci); fn != nil && nm(fn) == "removeAll" && domInstr(ci, in) {
+					released = true
+				}
+			})
+			if released {
+				rc.good(cons, in.Pos(), "the recursive remover runs on every path to the deletion of the table entry")
+			} else {
+				rc.bad(cons, in.Pos(), "the entry of the volume table is deleted on a path on which the recursive remover was not called: the nodes below the volume's root keep their link counts although their names are gone")
+			}
+		})
+	}
+	if n == 0 {
+		rc.anchor("memfs: delete(vfs.volumes, ..)")
+	}
+}
+
+func init() {
+	register(&Rule{ID: "C17.bothseps", Floor: 3, Also: []string{"C01"}, AlsoFloor: map[string]int{"C01": 3},
+		Text: "the generic helpers of package avfs (outside the adapted copies of path/filepath and the path iterator, which work on cleaned paths) never look for THE separator in a string a caller supplied: the result of PathSeparator() is used to build paths, not handed to a search function of package strings (IndexByte, Contains, Split ...) - a Windows-typed file system accepts both separators, which is what IsPathSeparator decides byte by byte; a search for the one separator lets the other through (a temporary-file pattern with '/' is then accepted and escapes the directory, where the Linux-typed twin refuses it)",
+		Run:  c17BothSeps})
+}
+
+func c17BothSeps(rc *RuleCtx) {
+	searchFn := func(name string) bool {
+		for _, p := range []string{"Index", "LastIndex", "Contains", "Count", "Split", "Cut", "HasPrefix", "HasSuffix", "Trim", "Fields"} {
+			if strings.HasPrefix(name, p) {
+				return true
+			}
+		}
+		return false
+	}
+	for _, f := range rc.C.srcFuncs("avfs") {
+		if rc.C.inlinedAway(f) || f.Synthetic != "" {
+			continue
+		}
+		fn := rc.C.Fset.Position(f.Pos()).Filename
+		base := fn[strings.LastIndex(fn, "/")+1:]
+		if base == "vfs_ostype_on.go" || base == "vfs_ostype_off.go" || base == "pathiterator.go" {
+			continue
+		}
+		n := 0
+		var badAt token.Pos
+		what := ""
+		eachCall(f, func(ci ssa.CallInstruction) {
+			c := calleeFunc(ci)
+			if c == nil || c.Name() != "PathSeparator" {
+				return
+			}
+			v, ok := ci.(*ssa.Call)
+			if !ok {
+				return
+			}
+			n++
+			// uses of the separator, through conversions
+			var uses func(x ssa.Value, d int)
+			uses = func(x ssa.Value, d int) {
+				if d > 4 || x.Referrers() == nil {
+					return
+				}
+				for _, r := range *x.Referrers() {
+					switch u := r.(type) {
+					case *ssa.Convert:
+						uses(u, d+1)
+					case *ssa.ChangeType:
+						uses(u, d+1)
+					case *ssa.Call:
+						if sc := u.Call.StaticCallee(); sc != nil && sc.Pkg != nil && (sc.Pkg.Pkg.Path() == "strings" || sc.Pkg.Pkg.Path() == "bytes") && searchFn(sc.Name()) && badAt == token.NoPos {
+							badAt = u.Pos()
+							what = sc.Pkg.Pkg.Name() + "." + sc.Name()
+						}
+					}
+				}
+			}
+			uses(v, 0)
+		})
+		if n == 0 {
+			continue
+		}
+		cons := funcName(f) + " separator builds paths"
+		if badAt != token.NoPos {
+			rc.bad(cons, badAt, "the result of PathSeparator() is handed to "+what+": on a Windows-typed file system the other separator ('/') passes the test, where IsPathSeparator refuses both")
+		} else {
+			rc.good(cons, f.Pos(), fmt.Sprintf("%d uses of PathSeparator(), none in a search", n))
 		}
 	}
 }
